@@ -78,7 +78,18 @@ func TestServerAndClient(t *testing.T) {
 		if err := st.WriteRtpPacket(rtppack.ToIpchub(rtp.ChannelVideo, pk)); err != nil {
 			t.Fatal(err)
 		}
-		it, err := c.ReadItem()
+		// ipchub's buffered.Conn flushes media lazily (at most 30 flushes/s, driven by
+		// later writes, no timer): keep publishing filler packets until the frame shows up.
+		var it rtspc.Item
+		deadline := time.Now().Add(bound)
+		for seq := uint16(8); ; seq++ {
+			it, err = c.ReadItemTimeout(10 * time.Millisecond)
+			if err != rtspc.ErrTimeout || time.Now().After(deadline) {
+				break
+			}
+			filler := rtppack.Sequence([][]byte{idr(20)}, true, 96, 9000, seq, 1)[0].Marshal()
+			st.WriteRtpPacket(rtppack.ToIpchub(rtp.ChannelVideo, filler))
+		}
 		if err != nil || it.Frame == nil || it.Frame.Channel != 0 || string(it.Frame.Payload) != string(pk) {
 			t.Fatalf("%s: interleaved frame: %v %+v", transport, err, it)
 		}
